@@ -201,6 +201,7 @@ def generate(repo):
         out.append(coq_list('create_%s_order' % kind, order(body, [
             ('TIdxNew', ctor),
             ('TBackfill', r'self\s*\.\s*backfill_%s_index\s*\(' % kind),
+            ('TIdxFlush', r'index\s*\.\s*flush\s*\(\s*now_ms\s*\)\s*\.\s*await'),
             ('TRegister', reg),
         ], fn), 'Collection::' + fn))
     cu = fn_body(src, 'cleanup_removed_index', G)
